@@ -555,7 +555,7 @@ func (l Linter) validate() error {
 // DetermineEnabledRules returns the list of rules that are enabled based on
 // the supplied configuration. This makes use of the Rego and Go rule settings
 // to produce a single list of the rules that are to be run on this linter
-// instance.
+// instance, including any custom rules loaded.
 func (l Linter) DetermineEnabledRules(ctx context.Context) ([]string, error) {
 	conf, err := l.GetConfig()
 	if err != nil {
@@ -564,11 +564,17 @@ func (l Linter) DetermineEnabledRules(ctx context.Context) ([]string, error) {
 
 	l.dataBundle = l.createDataBundle(*conf)
 
-	queryStr := `[rule |
-        data.regal.rules[cat][rule]
-		object.get(data.regal.rules[cat][rule], "notices", set()) == set()
-        not data.regal.config.ignored_rule(cat, rule)
-    ]`
+	queryStr := `array.concat(
+		[rule |
+			data.regal.rules[cat][rule]
+			object.get(data.regal.rules[cat][rule], "notices", set()) == set()
+			not data.regal.config.ignored_rule(cat, rule)
+		],
+		[rule |
+			data.custom.regal.rules[cat][rule]
+			not data.regal.config.ignored_rule(cat, rule)
+		],
+	)`
 
 	query := ast.MustParseBody(queryStr)
 
@@ -608,7 +614,8 @@ func (l Linter) DetermineEnabledRules(ctx context.Context) ([]string, error) {
 }
 
 // DetermineEnabledAggregateRules returns the list of aggregate rules that are
-// enabled based on the configuration. This does not include any go rules.
+// enabled based on the configuration, including any custom aggregate rules loaded.
+// This does not include any go rules.
 func (l Linter) DetermineEnabledAggregateRules(ctx context.Context) ([]string, error) {
 	enabledRules := make([]string, 0)
 
@@ -619,10 +626,16 @@ func (l Linter) DetermineEnabledAggregateRules(ctx context.Context) ([]string, e
 
 	l.dataBundle = l.createDataBundle(*conf)
 
-	queryStr := `[rule |
-        data.regal.rules[cat][rule].aggregate
-        not data.regal.config.ignored_rule(cat, rule)
-    ]`
+	queryStr := `array.concat(
+		[rule |
+			data.regal.rules[cat][rule].aggregate
+			not data.regal.config.ignored_rule(cat, rule)
+		],
+		[rule |
+			data.custom.regal.rules[cat][rule].aggregate
+			not data.regal.config.ignored_rule(cat, rule)
+		],
+	)`
 
 	query := ast.MustParseBody(queryStr)
 
